@@ -998,3 +998,84 @@ pub(crate) fn read_sample_period() -> Option<u64> {
         bytes => Some(bytes),
     }
 }
+
+/// Run the real `find_file_with_upper_bound_range` over synthetic file metadata, in the order
+/// given (which need not be sorted: the loop must stay in range whatever it is given).
+pub fn find_file(files: &[FileDump], target: &IKey) -> Result<Option<usize>, String> {
+    use crate::versioning::file_metadata::FileMetadata;
+    let mut metadata = vec![];
+    for file in files {
+        let mut meta = FileMetadata::new(file.number);
+        meta.set_file_size(file.size);
+        meta.set_smallest_key(Some(to_internal_key(&file.smallest)?));
+        meta.set_largest_key(Some(to_internal_key(&file.largest)?));
+        metadata.push(Arc::new(meta));
+    }
+    let target = to_internal_key(target)?;
+    std::panic::catch_unwind(std::panic::AssertUnwindSafe(|| {
+        crate::versioning::utils::find_file_with_upper_bound_range(&metadata, &target)
+    }))
+    .map_err(|_| "panic".to_string())
+}
+
+/// Run the real `Version::get_overlapping_files` on a synthetic version; the numbers of the files
+/// it returns per level, in the order it returns them.
+pub fn overlapping_files(
+    options: &crate::DbOptions,
+    levels: &[Vec<FileDump>],
+    target: &IKey,
+) -> Result<Vec<Vec<u64>>, String> {
+    use crate::versioning::file_metadata::FileMetadata;
+    let table_cache = Arc::new(crate::table_cache::TableCache::new(options.clone(), 10));
+    let mut version = crate::versioning::version::Version::new(options.clone(), &table_cache, 0, 0);
+    for (idx, files) in levels.iter().enumerate().take(crate::config::MAX_NUM_LEVELS) {
+        for file in files {
+            let mut meta = FileMetadata::new(file.number);
+            meta.set_file_size(file.size);
+            meta.set_smallest_key(Some(to_internal_key(&file.smallest)?));
+            meta.set_largest_key(Some(to_internal_key(&file.largest)?));
+            version.files[idx].push(Arc::new(meta));
+        }
+    }
+    let target = to_internal_key(target)?;
+    std::panic::catch_unwind(std::panic::AssertUnwindSafe(|| {
+        version
+            .get_overlapping_files(&target)
+            .iter()
+            .map(|files| files.iter().map(|file| file.file_number()).collect())
+            .collect()
+    }))
+    .map_err(|_| "panic".to_string())
+}
+
+/// Build a block from sorted entries, parse it and `seek` one cursor to every target in turn.
+/// Per target: the position (index into `entries`) of the entry the cursor stands on, `None` when
+/// the cursor is not valid afterwards.
+pub fn block_seek(
+    restart_interval: usize,
+    entries: &[Entry],
+    targets: &[IKey],
+) -> Result<Vec<Option<usize>>, String> {
+    use crate::iterator::RainDbIterator;
+    let raw = block_encode(restart_interval, entries)?;
+    let reader: crate::tables::block::DataBlockReader =
+        crate::tables::block::BlockReader::new(raw).map_err(|e| e.to_string())?;
+    let mut iter = reader.iter();
+    let mut positions = vec![];
+    for target in targets {
+        let target = to_internal_key(target)?;
+        iter.seek(&target).map_err(|e| e.to_string())?;
+        if iter.is_valid() {
+            let (key, _) = iter.current().unwrap();
+            let (user_key, seq, op) = ikey_tuple(key);
+            positions.push(
+                entries
+                    .iter()
+                    .position(|entry| entry.0 == user_key && entry.1 == seq && entry.2 == op),
+            );
+        } else {
+            positions.push(None);
+        }
+    }
+    Ok(positions)
+}
